@@ -555,3 +555,45 @@ CHECKS["C16"] = dict(
     level_text="Every position within the ply bound and every (ancestor, descendant) pair is pushed through the real filter and heuristic; verdicts and move sequences are judged by an independent oracle.",
     level_note="Trusted: the oracle's SAN writer for replaying emitted sequences; games longer than 80 plies and positions with < 26 men are not covered.",
 )
+
+# ------------------------------------------------------------------------------------------ C10
+def c10_parts(tier, seed):
+    T = "c10_sessions"
+    q = tier == "quick"
+    if q:
+        return [
+            P("bound1-threads12", T, "sched", ["--part", "explore", "--threads", "1,2", "--bound", 1], require=["schedules", "determinism_checks"], deadline_frac=0.9),
+            P("bound2-threads1", T, "sched", ["--part", "explore", "--threads", "1", "--bound", 2, "--scripts", "S1;S2;S4;S13"], require=["schedules"], deadline_frac=0.9),
+            P("bound1-threads3", T, "sched", ["--part", "explore", "--threads", "3", "--bound", 1, "--scripts", "S1;S2;S5;S6;S7"], require=["schedules"], deadline_frac=0.9),
+        ]
+    return [
+        P("bound2-threads12", T, "sched", ["--part", "explore", "--threads", "1,2", "--bound", 2], require=["schedules", "determinism_checks"], deadline_frac=0.6),
+        P("bound1-threads3", T, "sched", ["--part", "explore", "--threads", "3", "--bound", 1], require=["schedules"], deadline_frac=0.2),
+        P("bound3-threads1", T, "sched", ["--part", "explore", "--threads", "1", "--bound", 3, "--scripts", "S1;S2;S13"], require=["schedules"], deadline_frac=0.2),
+        P("bound1-asan", T, "sched-asan", ["--part", "explore", "--threads", "2", "--bound", 1, "--scripts", "S1;S2;S3;S5;S7;S9"], require=["schedules"], deadline_frac=0.2),
+    ]
+
+C10_COMMON = dict(
+    engine="vsched-explorer",
+    rule="states = distinct executions (fingerprint of the granted (thread, operation) sequence) of the real engine stack under the controlled scheduler; transitions = scheduling points "
+         "executed; non-trivial = the schedule deviates from the default scheduler at least once",
+    alphabet="13 scripts x Threads in {1,2,3}: go/finish, infinite/stop, ponder/ponderhit, ponder/stop, back-to-back go on positions with disjoint legal moves (white / black to move), "
+             "Threads change between searches, quit during search, option change + isready during search, EOF during search, KQK depth 2, ucinewgame between searches, no-legal-move root + "
+             "searchmoves, stop after a search that ended by itself; scheduling points: every mutex lock/unlock, condition wait/notify, thread create/start/exit/join, sleep, sequentially "
+             "consistent atomic store/RMW (search, quitFlag, terminate, ponder, infinite, node counters); the script driver is a scheduled thread too (command arrival relative to search progress)",
+    oracle="in every execution: no deadlock (no enabled thread while some are unfinished), no livelock (step horizon), replay never diverges; transcript contract (exactly one bestmove per go, "
+           "not before the releasing stop/ponderhit/quit/EOF/next go for ponder and infinite searches, one readyok per isready, no info after bestmove, well-formed lines), best move legal for the "
+           "position of THAT go (S5: disjoint move sets expose results attributed to the wrong search), 0000 only without legal moves, child exit status 0",
+    assumptions=["delay bounding: every choice other than the default scheduler's costs one deviation; the default scheduler keeps the running thread, treats sleeping and mailbox-polling "
+                 "threads as yielding and rotates after 64 consecutive steps (starvation bound); relaxed atomic accesses (hash table words, time limits) and atomic loads are not "
+                 "scheduling points; sequentially consistent interleavings only", "Threads <= 3; roots with 0-6 legal moves keep a session at 300-4000 scheduling points"],
+)
+CHECKS["C10"] = dict(
+    parts=c10_parts,
+    bound=dict(quick="delay bound 1 for all 13 scripts with Threads 1 and 2; delay bound 2 for S1, S2, S4, S13 with Threads 1; delay bound 1 for 5 scripts with Threads 3",
+               thorough="delay bound 2 for all scripts (Threads 1, 2), bound 1 with Threads 3, bound 3 for S1/S2/S13, under the deadline (unfinished bounds reported as exhaustive:false)"),
+    technique="stateless model checking of the real code: token-passing scheduler over hooked synchronisation points, iterative delay-bounded exhaustive exploration, replayable schedules",
+    level_text="Every schedule of the real protocol/engine/helper threads within the delay bound is executed (in a forked child, deterministically replayable) and judged; this is exhaustive "
+               "up to the bound for the stated scripts, which is the right level for lost wake-ups, deadlocks and misattributed results.",
+    level_note="Trusted: the scheduler models mutex/condvar semantics faithfully (real primitives are called only when the model says they cannot block); determinism is re-checked by replaying the default schedule.",
+    **C10_COMMON)
